@@ -49,6 +49,11 @@ ERROR_CLASSES = {
     "err-alias-optional": "module M\ntypealias A = bool?\n",
     "err-invalid-attribute-place": "module M\n[oneway] struct S {}\n",
     "err-integer-literal": "module M\nenum E : uint8 { A = 0xZZ }\n",
+    # a file that declares no module can still be wrong
+    "err-attribute-on-module-less-file": "[[deprecated]]\n",
+    "err-attribute-on-module-less-file-2": "[[oneway]]\n// nothing else\n",
+    "err-attribute-on-hidden-module-file": "[[compress(Args)]]\n#if NOPE\nmodule Hidden\nstruct H {}\n#endif\n",
+    "err-attribute-on-base": "module M\ninterface B {}\ninterface I : [deprecated] B {}\n",
 }
 
 
